@@ -76,6 +76,12 @@ CHECKS["C12"] = dict(level="model_checking", engine="E1-sequences",
    note="Trusted: fake store; fault = request has no effect and returns the error. Only single faults; pairs of old versions are covered through the prefix sequences.",
    ref="§5 C12")
 
+CHECKS["C17"] = dict(level="model_checking", engine="E1-sequences",
+   technique="exhaustive enumeration of all event sequences over three kv handles (all time-rank assignments, all version-list permutations at every re-open, every RemoveTombstones cutoff) on the real kv package; reference model = one map per handle and per committed version",
+   text="Every sequence of length 1..5 (quick; callback modes 1..4) / 1..6 (thorough) over {Set, Tombstone, Commit, re-Open on 3 handles; RemoveTombstones with every cutoff rank; Clone+Set} with canonical handle order and every assignment of distinct time ranks to the timed events (so decreasing times occur), in three modes (last-write-wins, conflict callback, custom max-merge), plus a reduced alphabet with times in execution order to depth 7/9 (long version chains), plus legacy gob root objects, is executed against the real kv.DB on the fake store. After each sequence every handle's Get / IsTombstoned / Size / cursor scan, Diff between every ordered pair of committed versions, and TraceHistory (starts at the current value, only committed values, strictly decreasing times) must agree with the model; the conflict callback must fire exactly for keys whose live values differ in the two trees merged.",
+   note="Trusted: model = the documented rule (latest time wins, tombstone beats values, earliest tombstone kept, RemoveTombstones drops tombstones strictly older than the cutoff). Equal times are excluded (order dependent by design).",
+   ref="§5 C17")
+
 NOT_YET = {}
 
 props = [json.loads(l) for l in open("properties.jsonl")]
